@@ -38,7 +38,7 @@ RULE = ('conversions: every component tuple of length 1..5 over {0,1,9,10,99,100
         'VersionPredicate: conjunctions of 1..3 comparisons over the six operators (all-true, exactly-one-false, '
         'range, random) x candidates on and around every bound; malformed strings. non-trivial = more than one '
         'component / two different texts / any predicate; distinct by the texts handed to the code under test')
-REQUIRED_CLAUSES = ['under-lazy-translation', 'documented-keyword-call', 'roundtrip', 'str-vs-tuple-input', 'int-order', 'suffix-ignored',
+REQUIRED_CLAUSES = ['predicate-copy-answers-the-same', 'under-lazy-translation', 'documented-keyword-call', 'roundtrip', 'str-vs-tuple-input', 'int-order', 'suffix-ignored',
                     'non-numeric-ValueError', 'compat', 'predicate-parses', 'satisfied_by',
                     'malformed-predicate-ValueError', 'model-vs-packaging-selfcheck']
 ASSUMPTIONS = ['"major number" is the first number of the release segment (epochs are not part of it)',
@@ -250,6 +250,20 @@ def eval_pred(ctx, case, vu):
         ctx.case(('pred', pred_s))
         ctx.fail('wellformed-predicate-must-parse', case, {'predicate': pred_s, 'exc': e})
         return
+    # the predicate object may be copied (copy / deepcopy / pickle round trip) before it is asked
+    import copy
+    import pickle
+    import zlib
+    how = ('plain', 'copy', 'deepcopy', 'pickle')[zlib.crc32(pred_s.encode()) % 4]
+    if how != 'plain':
+        ctx.clause('predicate-copy-answers-the-same')
+        cp, e = call({'copy': copy.copy, 'deepcopy': copy.deepcopy,
+                      'pickle': lambda o: pickle.loads(pickle.dumps(o))}[how], pred)
+        if e is not None:
+            ctx.case(('pred', pred_s))
+            ctx.fail('predicate-copy-answers-the-same', case, {'predicate': pred_s, 'how': how, 'exc': e})
+            return
+        pred = cp
     for vj, text in case['cands']:
         cand = M.from_json(vj)
         truths = [M.holds(op, cand, bound) for op, bound in comps]
@@ -275,6 +289,10 @@ def eval_malformed(ctx, case, vu):
     text, cls = case['text'], case['cls']
     ctx.case(('malformed', text))
     ctx.h('malformed predicate class', case.get('why', cls))
+    if cls == 'must-reject':
+        # whatever was parsed earlier in this process - in particular the same text without its blanks, which may be
+        # a well-formed predicate - does not make a malformed one acceptable
+        call(vu.VersionPredicate, ''.join(text.split()))
     got, e = call(vu.VersionPredicate, text)
     if cls == 'must-reject':
         ctx.clause('malformed-predicate-ValueError')
@@ -742,6 +760,17 @@ def run(ctx):
     for op, ver in itertools.product(BAD_OPERATORS, ('1.0', ' 1.0', '2.0.0rc1')):
         emit({'kind': 'malformed', 'cls': 'must-reject', 'why': 'bad-operator', 'text': op + ver})
         emit({'kind': 'malformed', 'cls': 'must-reject', 'why': 'bad-operator', 'text': '>=0.5,' + op + ver})
+    # a blank inside the operator or inside the version of an otherwise well-formed comparison
+    rb = ctx.rng('inner-blank')
+    for op in ('>=', '<=', '==', '!='):
+        for ver in ('1.5.0', '2.0', '1.0rc1', '3', '0.9.1.post2'):
+            for lead in ('', '>=0.1,', '<99,'):
+                emit({'kind': 'malformed', 'cls': 'must-reject', 'why': 'blank-inside-operator',
+                      'text': lead + op[0] + ' ' + op[1] + ver})
+                if '.' in ver:
+                    k = ver.index('.') + 1
+                    emit({'kind': 'malformed', 'cls': 'must-reject', 'why': 'blank-inside-version',
+                          'text': lead + op + ver[:k] + ' ' + ver[k:]})
     for text in PREDICATE_DONTCARE:
         emit({'kind': 'malformed', 'cls': 'dontcare', 'why': 'dontcare', 'text': text}, 'malformed/dontcare')
     for _blk, rng, n in blocks('malformed', ctx.pick(4000, 80000)):
